@@ -62,6 +62,151 @@ Definition api_segment_many (a : tree) : tree :=
   eRes (eL (eL (fun p : Z * Z => Node [Leaf (fst p); Leaf (snd p)])))
        (with_cfg a (fun c => Ok (map (fun vs => segment c (tBs vs)) (tL (arg a 6))))).
 
+
+(* ------------------------------------------------------------ regions *)
+
+Definition dRegion (t : tree) : region Z :=
+  mkRegion (tZs (arg t 0)) (tZ (arg t 1)) (tZ (arg t 2)) (tZ (arg t 3)).
+Definition eRegion (r : region Z) : tree :=
+  Node [eZs (Region.rdata r); Leaf (Region.rate r); Leaf (Region.width r); Leaf (Region.nch r)].
+
+(* 10: [region, aOpt, bOpt] -> region *)
+Definition api_getitem (a : tree) : tree :=
+  eRegion (getitem (dRegion (arg a 0)) (tOpt tZ (arg a 1)) (tOpt tZ (arg a 2))).
+(* 11: [region, aOptF, bOptF] -> option region (seconds view) *)
+Definition api_sec_getitem (a : tree) : tree :=
+  eOpt eRegion (sec_getitem (dRegion (arg a 0)) (tOpt tF (arg a 1)) (tOpt tF (arg a 2))).
+(* 12: [region, aOpt, bOpt] -> option region (milliseconds view) *)
+Definition api_ms_getitem (a : tree) : tree :=
+  eOpt eRegion (ms_getitem (dRegion (arg a 0)) (tOpt tZ (arg a 1)) (tOpt tZ (arg a 2))).
+
+(* region expressions: [0,i] pool  [1,e1,e2] add  [2,e,n] mul  [3,sep,[es]] join
+   [4,e,n,k] k-th piece of e/n  [5,durF,sr,w,ch] make_silence  [6,e,aOpt,bOpt] slice
+   [7,data,sr,w,ch] construct *)
+Fixpoint eval_rexp (fuel : nat) (pool : list (region Z)) (e : tree) : result (region Z) :=
+  match fuel with
+  | O => Err OutOfFuel
+  | S f =>
+      let ev := eval_rexp f pool in
+      match tZ (arg e 0) with
+      | 0 => match nth_error pool (tN (arg e 1)) with Some r => Ok r | None => Err IndexError end
+      | 1 => bind (ev (arg e 1)) (fun r1 => bind (ev (arg e 2)) (fun r2 => add r1 r2))
+      | 2 => bind (ev (arg e 1)) (fun r => mul r (tZ (arg e 2)))
+      | 3 => bind (ev (arg e 1)) (fun sep =>
+               bind (fold_right (fun x acc => bind (ev x) (fun r => bind acc (fun l => Ok (r :: l))))
+                                (Ok []) (tL (arg e 2)))
+                    (fun others => join sep others))
+      | 4 => bind (ev (arg e 1)) (fun r =>
+               bind (div r (tZ (arg e 2))) (fun ps =>
+                 match nth_error ps (tN (arg e 3)) with Some x => Ok x | None => Err IndexError end))
+      | 5 => make_silence (tF (arg e 1)) (tZ (arg e 2)) (tZ (arg e 3)) (tZ (arg e 4))
+      | 6 => bind (ev (arg e 1)) (fun r => Ok (getitem r (tOpt tZ (arg e 2)) (tOpt tZ (arg e 3))))
+      | 7 => make (tZs (arg e 1)) (tZ (arg e 2)) (tZ (arg e 3)) (tZ (arg e 4))
+      | _ => Err TypeError
+      end
+  end.
+
+(* 13: [[pool regions], exp] -> result region *)
+Definition api_rexp (a : tree) : tree :=
+  eRes eRegion (eval_rexp 64 (map dRegion (tL (arg a 0))) (arg a 1)).
+(* 14: [region, n] -> result (list region) *)
+Definition api_div (a : tree) : tree :=
+  eRes (eL eRegion) (div (dRegion (arg a 0)) (tZ (arg a 1))).
+(* 15: [r1, r2] -> bool *)
+Definition api_region_eq (a : tree) : tree :=
+  eB (region_eqb (dRegion (arg a 0)) (dRegion (arg a 1))).
+
+(* ------------------------------------------------------------ sources *)
+
+Definition dOp (t : tree) : op :=
+  match tZ (arg t 0) with
+  | 0 => Open | 1 => Close | 2 => Rewind
+  | 3 => Read (tOpt tZ (arg t 1))
+  | 4 => GetPos | 5 => GetPosS | 6 => GetPosMs
+  | 7 => SetPos (tZ (arg t 1))
+  | 8 => SetPosS (tF (arg t 1))
+  | _ => SetPosMs (tZ (arg t 1))
+  end.
+Definition eOut (o : @out Z) : tree :=
+  match o with
+  | OUnit => Node [Leaf 0]
+  | ONone => Node [Leaf 1]
+  | OData d => Node [Leaf 2; eZs d]
+  | OInt z => Node [Leaf 3; Leaf z]
+  | OFloat x => Node [Leaf 4; eF x]
+  | OErr e => Node [Leaf 5; Leaf (err_code e)]
+  end.
+Definition dAudio (t : tree) : audio Z := mkAudio (tZs (arg t 0)) (tZ (arg t 1)) (tZ (arg t 2)).
+
+(* 20: [[bytes, rate, bps], [ops]] -> outs of a buffer source *)
+Definition api_bsteps (a : tree) : tree :=
+  eL eOut (snd (bsteps (dAudio (arg a 0)) init_b (map dOp (tL (arg a 1))))).
+
+Fixpoint fsteps (restart : bool) (au : audio Z) (s : fstate) (ops : list op) : list (@out Z) :=
+  match ops with
+  | [] => []
+  | o :: r => let '(s1, x) := fstep restart au s o in x :: fsteps restart au s1 r
+  end.
+(* 21: [restart, [bytes, rate, bps], [ops]] -> outs of a file-like source *)
+Definition api_fsteps (a : tree) : tree :=
+  eL eOut (fsteps (tB (arg a 0)) (dAudio (arg a 1)) init_f (map dOp (tL (arg a 2)))).
+
+(* ------------------------------------------------------------ reader *)
+
+Definition dRop (t : tree) : rop := match tZ t with 0 => RRead | 1 => RRewind | _ => RData end.
+Definition eRout (o : @rout Z) : tree :=
+  match o with
+  | RBlock b => Node [Leaf 0; eOpt eZs b]
+  | RUnit => Node [Leaf 1]
+  | RBytes d => Node [Leaf 2; eZs d]
+  | RErr e => Node [Leaf 3; Leaf (err_code e)]
+  end.
+(* 30: [samples, W, HOpt, record, mxOpt, [rops]] -> routs *)
+Definition api_reader (a : tree) : tree :=
+  eL eRout (snd (rsteps (mk_reader (tZs (arg a 0)) (tZ (arg a 1)) (tOpt tZ (arg a 2)) (tB (arg a 3)) (tOpt tZ (arg a 4)))
+                        (map dRop (tL (arg a 5))))).
+(* 31: [rate, blockF, hopOptF, maxOptF] -> result [W, HOpt, mxOpt] *)
+Definition api_reader_params (a : tree) : tree :=
+  eRes (fun r : Z * option Z * option Z => Node [Leaf (fst (fst r)); eOpt eZ (snd (fst r)); eOpt eZ (snd r)])
+       (reader_params (tZ (arg a 0)) (tF (arg a 1)) (tOpt tF (arg a 2)) (tOpt tF (arg a 3))).
+
+(* ------------------------------------------------------------ durations *)
+
+Definition dEps (t : tree) : option f64 :=
+  match tZ t with 1 => Some eps_pos | 2 => Some eps_neg | _ => None end.
+(* 40: [dF, wF, rnd(0 floor,1 ceil), eps(0,1,2)] -> result Z *)
+Definition api_nbw (a : tree) : tree :=
+  eRes eZ (nbw (tF (arg a 0)) (tF (arg a 1)) (if tB (arg a 2) then RCeil else RFloor) (dEps (arg a 3))).
+Definition e4 (r : Z * Z * Z * Z) : tree :=
+  let '(mn, mx, ms, W) := r in Node [Leaf mn; Leaf mx; Leaf ms; Leaf W].
+(* 41: [minF, maxF, silF, awF, rate] *)
+Definition api_split_params (a : tree) : tree :=
+  eRes e4 (split_params (tF (arg a 0)) (tF (arg a 1)) (tF (arg a 2)) (tF (arg a 3)) (tZ (arg a 4))).
+(* 42: [minF, maxF, silF, W, rate] *)
+Definition api_split_params_reader (a : tree) : tree :=
+  eRes e4 (split_params_reader (tF (arg a 0)) (tF (arg a 1)) (tF (arg a 2)) (tZ (arg a 3)) (tZ (arg a 4))).
+
+(* ------------------------------------------------------------ formatter *)
+
+(* 50: [fmt chars, xF] -> result chars ; 51: [fmt chars] -> 0 / error code *)
+Definition api_format_time (a : tree) : tree := eRes eZs (format_time (tZs (arg a 0)) (tF (arg a 1))).
+Definition api_formatter_ok (a : tree) : tree := eRes (fun _ => Leaf 0) (formatter_ok (tZs (arg a 0))).
+
+(* ------------------------------------------------------------ pcm / wav / energy *)
+
+Definition dSel (t : tree) : sel :=
+  match tZ (arg t 0) with 0 => SAny | 1 => SMix | 2 => SIdx (tZ (arg t 1)) | _ => SBad end.
+(* 60: [w, ch, sel, p, q, data] -> result bool *)
+Definition api_is_valid (a : tree) : tree :=
+  eRes eB (is_valid (tN (arg a 0)) (tN (arg a 1)) (dSel (arg a 2)) (tZ (arg a 3)) (tZ (arg a 4)) (tZs (arg a 5))).
+(* 61: [w, ch, data] -> channels *)
+Definition api_to_array (a : tree) : tree := eL eZs (to_array (tN (arg a 0)) (tN (arg a 1)) (tZs (arg a 2))).
+(* 62: [rate, w, ch, data] -> file bytes ; 63: file bytes -> option [rate, w, ch, data] *)
+Definition api_wav_encode (a : tree) : tree :=
+  eZs (wav_encode (mkWav (tZ (arg a 0)) (tZ (arg a 1)) (tZ (arg a 2)) (tZs (arg a 3)))).
+Definition api_wav_decode (a : tree) : tree :=
+  eOpt (fun x => Node [Leaf (wrate x); Leaf (wwidth x); Leaf (wch x); eZs (wdata x)]) (wav_decode (tZs a)).
+
 Definition dispatch (op : Z) (a : tree) : tree :=
   match op with
   | 1 => api_tokenize a
@@ -72,5 +217,24 @@ Definition dispatch (op : Z) (a : tree) : tree :=
   | 6 => api_validate_many a
   | 7 => api_run_idx_many a
   | 8 => api_segment_many a
+  | 10 => api_getitem a
+  | 11 => api_sec_getitem a
+  | 12 => api_ms_getitem a
+  | 13 => api_rexp a
+  | 14 => api_div a
+  | 15 => api_region_eq a
+  | 20 => api_bsteps a
+  | 21 => api_fsteps a
+  | 30 => api_reader a
+  | 31 => api_reader_params a
+  | 40 => api_nbw a
+  | 41 => api_split_params a
+  | 42 => api_split_params_reader a
+  | 50 => api_format_time a
+  | 51 => api_formatter_ok a
+  | 60 => api_is_valid a
+  | 61 => api_to_array a
+  | 62 => api_wav_encode a
+  | 63 => api_wav_decode a
   | _ => Node [Leaf 1; Leaf (-1)]
   end.
